@@ -199,7 +199,11 @@ func checkC11(c *Ctx) {
 	c.checkGuard("C11.4", guards["Cache"])
 
 	// C11.5 map and list stay in step
-	if ev := p.Method("security/cert", "Cache", "evict"); ev != nil {
+	ev := p.Method("security/cert", "Cache", "evict")
+	if ev == nil {
+		ev = insert // eviction written inline in insert
+	}
+	if ev != nil {
 		fl := NewFlow(p, ev)
 		ok, gateAt := false, false
 		eachInstr(ev, func(in ssa.Instruction) {
